@@ -19,6 +19,7 @@ static struct cmd cmds[] = {
   {"c06", cmd_c06},
   {"c08", cmd_c08},
   {"c16", cmd_c16},
+  {"c17", cmd_c17},
   {NULL, NULL}
 };
 int main(int argc, char **argv) {
